@@ -720,11 +720,19 @@ class XMLResource(XMLResourceLoader):
                     if level < path_depth:
                         if ancestors is not None:
                             ancestors.pop()
-                        continue
                     elif level == path_depth:
-                        if select_all or node in selector.iter_select(self):
+                        if select_all:
                             yield node
+                        else:
+                            if path_depth > lazy_depth and self._xpath_root is not None:
+                                # the enclosing subtree is still growing: drop the
+                                # XPath nodes built when it was less complete
+                                self._xpath_root.children.clear()
+                            if node in selector.iter_select(self):
+                                yield node
                     if level == lazy_depth:
+                        # also for a path deeper than the lazy depth: the subtree is
+                        # released and the XPath tree is reset for the next elements
                         self._clear(node, ancestors)
 
     def find(self, path: str,
